@@ -22,7 +22,8 @@ def getElem (j : Json) : R (Elem Float) := do
   | "fused" => return .fused uid (← fF j "loss")
   | "edfa" =>
     return .edfa uid { variety := ← fStr j "variety", gain := ← fOpt getF j "gain", deltaP := ← fOpt getF j "delta_p",
-                       outVoa := ← fOpt getF j "out_voa", inVoa := ← fOpt getF j "in_voa", tilt := ← fOpt getF j "tilt" }
+                       outVoa := ← fOpt getF j "out_voa", inVoa := ← fOpt getF j "in_voa", tilt := ← fOpt getF j "tilt",
+                       multi := (← fOpt getBool j "multi").getD false }
   | k => throw s!"unknown element kind {k}"
 
 def jElem : Elem Float → Json
@@ -33,7 +34,7 @@ def jElem : Elem Float → Json
   | .fused u l => jObj [("kind", jStr "fused"), ("uid", jStr u), ("loss", jF l)]
   | .edfa u p => jObj [("kind", jStr "edfa"), ("uid", jStr u), ("variety", jStr p.variety), ("gain", jOpt jF p.gain),
                        ("delta_p", jOpt jF p.deltaP), ("out_voa", jOpt jF p.outVoa), ("in_voa", jOpt jF p.inVoa),
-                       ("tilt", jOpt jF p.tilt)]
+                       ("tilt", jOpt jF p.tilt), ("multi", jBool p.multi)]
 
 def getKind (j : Json) (k : String) : R EndKind := do
   match ← fStr j k with
@@ -43,7 +44,8 @@ def getKind (j : Json) (k : String) : R EndKind := do
 
 def getChain (j : Json) : R (Chain Float) := do
   return { src := ← fStr j "src", srcKind := ← getKind j "src_kind", line := ← fList getElem j "line",
-           dst := ← fStr j "dst", dstKind := ← getKind j "dst_kind" }
+           dst := ← fStr j "dst", dstKind := ← getKind j "dst_kind",
+           srcBands := (← fOpt getNat j "src_bands").getD 1, dstFirst := (← fOpt getBool j "dst_first").getD false }
 
 def getSplit (j : Json) : R (SplitCfg Float) := do
   return { fuel := 100000, lo := ← fF j "lo", hi := ← fF j "hi", target := ← fF j "target" }
@@ -73,6 +75,8 @@ def design (j : Json) : R Json := do
     | _ => false)
   if raisesLump then return jObj [("error", jStr "NetworkTopologyError")]
   let missing := addMissingLine c ch
+  if kindsRaise ch.srcBands missing then
+    return jObj [("error", jStr "NetworkTopologyError"), ("missing", jList jElem missing)]
   let withConn := addConn (← fF j "con_in") (← fF j "con_out") (← fF j "eol") missing
   let rs := runs withConn
   if rs.any padRaises then
